@@ -11,7 +11,7 @@ import sys
 VERIF = os.path.dirname(os.path.dirname(os.path.abspath(__file__)))
 SD = os.path.join(VERIF, "seeded")
 # outcome of the very first run of the checks against each seed, before any strengthening
-FIRST_MISSED = {"C02-3", "C08-4", "C10-4", "C04-3", "C09-3", "C11-4", "C12-4", "C02-2", "C03-1", "C05-1", "C06-1", "C06-2", "C08-1", "C08-2", "C10-1", "C11-2", "C15-1", "C18-1", "C19-1", "C19-2"}
+FIRST_MISSED = {"C03-4", "C03-5", "C02-5", "C02-6", "C10-5", "C02-3", "C08-4", "C10-4", "C04-3", "C09-3", "C11-4", "C12-4", "C02-2", "C03-1", "C05-1", "C06-1", "C06-2", "C08-1", "C08-2", "C10-1", "C11-2", "C15-1", "C18-1", "C19-1", "C19-2"}
 STRENGTHENED = {
     "C02-2": "new rule C02-e.upgrade-hands-over-write-buf (+ write-buf-effect)",
     "C03-1": "new rule C03-c.finished-kept-while-draining",
@@ -34,6 +34,11 @@ STRENGTHENED = {
     "C04-4": "caught by fail-closed anchors only (the Ready edge of poll_linger and its self-wake disappeared)",
     "C09-3": "new rule C09-f.configure-keeps-default",
     "C11-4": "C11-e.head-field strengthened from 'some write exists' to must-pass-through on every path to the hand-off",
+    "C03-4": "new rule C03-c.close-decision-before-state-drop",
+    "C03-5": "new rule C03-c.body-decoder-installed",
+    "C02-5": "new rule C02-e/C04-c.error-exit-after-responses",
+    "C02-6": "new rule C02-c.encoder-follows-size",
+    "C10-5": "new rule C10-d.build-appends-verbatim",
     "C12-4": "C12-a.append-guarded now requires the compared bound to be the configured limit (no path may replace it by a constant)",
 }
 
